@@ -631,7 +631,6 @@ func runWorker(c *Check, tier string, work chan string, m *merged, deadline time
 					sig, what := c.DiedSig(lastBegin, errBuf.String())
 					r := newRec(cur, nil)
 					r.Fail(sig, what, lastBegin)
-					r.Capped = true // rest of this unit was not run
 					r.HashBlob = ""
 					m.add(r)
 					m.mu.Lock()
